@@ -26,7 +26,8 @@ pub fn alone(a: &Args) {
     use harper_core::linting::{LintGroup, Linter};
     let text = a.req("text").replace("\\n", "\n");
     let dict = harper_core::FstDictionary::curated();
-    let doc = harper_core::Document::new(&text, &harper_core::parsers::PlainEnglish, &dict);
+    let doc = if a.get("front") == Some("markdown") { harper_core::Document::new(&text, &harper_core::parsers::Markdown::default(), &dict) }
+              else { harper_core::Document::new(&text, &harper_core::parsers::PlainEnglish, &dict) };
     let mut lg = LintGroup::new_curated(dict.clone(), Dialect::American);
     let names: Vec<String> = lg.iter_keys().map(|s| s.to_string()).collect();
     for n in &names {
